@@ -669,6 +669,8 @@ func writeReplay(e *Engine, run *PropRun, r *FnResult, o *Obligation) replayResu
 		out, failed := runReplay(e, spec)
 		rec["go_test"] = spec.Source
 		rec["go_test_pkg"] = spec.PkgDir
+		rec["go_test_name"] = spec.TestName
+		rec["must_contain"] = spec.MustContain
 		rec["replay_output"] = out
 		rec["replay_failed_as_expected"] = failed
 		confirmed = failed
